@@ -21,6 +21,7 @@ let op_of_json (j : json) : op =
   | "ext_dir" -> OExtDir (jname (jfield j "n"))
   | "ext_remove" -> OExtRemove (jname (jfield j "n"))
   | "ext_db" -> OExtDb (jname (jfield j "h"), jstatus (jfield j "st"))
+  | "ext_mark" -> OExtMark (jname (jfield j "h"))
   | "restart" -> ORestart
   | "restart_save" -> ORestartSave (jbool (jfield j "b"))
   | s -> raise (Model_error ("unknown op " ^ s))
@@ -38,7 +39,11 @@ let obs (s : state) : json =
     ("completed", of_list of_bytes (completed s));
     ("cache", of_list (fun (h, (kd, v)) -> JArr [of_bytes h; of_bool kd; of_bool v]) (cache s));
     ("alive", of_bool (alive s));
-    ("save", of_bool (save s)) ]
+    ("save", of_bool (save s));
+    ("marked", of_list of_bytes (marked s));
+    (* what get_blobs_to_announce returns under each setting; a dead process announces nothing *)
+    ("announce_all", of_list of_bytes (if alive s then announce_list false s else []));
+    ("announce_head", of_list of_bytes (if alive s then announce_list true s else [])) ]
 
 let () = serve (fun fn req ->
   match fn with
